@@ -201,6 +201,12 @@ def body_given(case, ctx):
     _labels(case["mask"], ctx)
     check_edge_border(case["mask"], case["pixel_scales"], case["origin"], ctx)
     check_blurring(case["mask"], case["kernel_shape"], case["pixel_scales"], case["origin"], ctx)
+    # the same mask supplied in other memory layouts / forms denotes the same pixel sets in every view
+    import autoarray as aa
+    for lname, msrc in gens.mask_layouts(case["mask"]):
+        lmask = aa.Mask2D(mask=msrc, pixel_scales=tuple(case["pixel_scales"]), origin=tuple(case["origin"]))
+        check_edge_border(case["mask"], case["pixel_scales"], case["origin"], ctx, mask_obj=lmask, pre="layout:%s/" % lname)
+        check_blurring(case["mask"], case["kernel_shape"], case["pixel_scales"], case["origin"], ctx, mask_obj=lmask, pre="layout:%s/" % lname)
 
 
 def body_even_kernel(case, ctx):
